@@ -634,6 +634,84 @@ def arraylike(ctx, files=(BOX, PLANE, VA)):
     ctx.ob('ARRAYLIKE', BOX + '::*', 'all %d array-like parameters in Box.py, Plane.py, vect_angle.py are converted before ndarray-only use' % n, True, key='summary')
 
 
+def set_types(ctx):
+    """the parameter-set constructors build the vectors from whatever numbers they are given: whole-number lengths with fractional tilts must not be truncated (DTYPE-FLOW:
+    any array the setters fill element by element is a float array whatever the element type of the parameters)"""
+    from .. import dtypeflow as D
+    n = 0
+    for q in ('Box.set_lengths', 'Box.set_hi_los', 'Box.set_abc', 'Box.set_vectors'):
+        try:
+            fn = ctx.fn(BOX, q)
+        except Exception:
+            continue
+        n += 1
+        flow = D.DtypeFlow(fn, module=ctx.mod(BOX))
+        def of(atoms):
+            out = set()
+            for a_ in atoms:
+                if isinstance(a_, tuple) and a_[0] == 'of':
+                    out |= set(str(a_[1]).split('|'))
+            return out
+
+        def risky(st):
+            if D.may_not_be_float(st.buf) and D.may_be_fractional(st.val):
+                return True
+            # a buffer whose element type is that of some parameters (np.diag([lx, ly, lz])) receiving another parameter: whole-number lengths, fractional tilt
+            pb, pv = of(st.buf), of(st.val)
+            return bool(pb) and bool(pv) and not pv <= pb and not any(a_ in ('float', 'pyfloat') for a_ in st.buf)
+        bad = [st for st in flow.stores if risky(st)]
+        ctx.ob('CHAIN', BOX + '::' + q, 'no array filled element by element can be an integer array when the parameters are whole numbers (a fractional tilt or component stored into it would be truncated)',
+               not bad, '; '.join('line %d: %s receives %s' % (st.node.lineno, norm(st.target)[:40], D.describe(st.val)) for st in bad[:3]), node=fn, key='set types ' + q)
+    ctx.floor('CHAIN/set-types', n, 3)
+
+
+def inside_scenarios(ctx):
+    """inside() on concrete cells: (a) the same cell in other units of length (a closeness test on a plane normal -- a cross product, a length squared -- would show);
+    (b) one object used, then given another origin, then used again (whatever it remembers about its faces must follow the origin)"""
+    ev, cls, shape, plane, va = _env(ctx)
+    fn = ctx.fn(BOX, 'Box.inside')
+    loc = BOX + '::Box.inside'
+    R = sp.Rational
+    V0 = np.array([[R(7, 2), 0, 0], [R(-3, 10), R(18, 5), 0], [R(1, 5), R(-1, 10), R(41, 10)]], dtype=object)
+    o0 = np.array([R(3, 2), R(-9, 4), R(3, 4)], dtype=object)
+    rel = np.array([[R(3, 10), R(1, 2), R(7, 10)], [R(6, 5), R(1, 2), R(1, 2)], [R(-1, 10), R(1, 5), R(1, 2)], [R(999, 1000), R(1, 1000), R(1, 2)], [R(1, 2), R(1, 2), R(101, 100)]], dtype=object)
+    want = [True, False, False, True, False]
+
+    def ask(obj, V, o):
+        pts = rel.dot(V) + o
+        try:
+            res = ev.call_fn(fn, [obj, pts, True], {}, Path({}))
+        except WouldRaise as e:
+            return 'raises: %s' % str(e)[:80]
+        except Opaque as e:
+            raise AnalysisError('Box.inside on a concrete cell: %s' % e)
+        except Exception as e:
+            if type(e).__name__ in ('_FnRaise', '_PyRaise'):
+                return 'raises: %s' % str(e)[:80]
+            raise
+        try:
+            return [bool(x) for x in np.ravel(res)]
+        except TypeError:
+            return 'undecided: %s' % (res,)
+    n = 0
+    for sc in (sp.Integer(1), R(1, 10 ** 5), R(1, 10 ** 10), sp.Integer(10 ** 6)):
+        got = ask(_box(cls, shape, V0 * sc, o0 * sc), V0 * sc, o0 * sc)
+        n += 1
+        ctx.ob('INSIDE', loc, 'a triclinic cell with lengths x %s: points with relative coordinates inside / outside [0, 1] are reported inside / outside' % sc, got == want, 'got %s' % (got,), node=fn, key='scale %s' % sc)
+    obj = _box(cls, shape, V0, o0)
+    first = ask(obj, V0, o0)
+    o1 = o0 + np.array([5, -3, R(1, 2)], dtype=object)
+    setter = ctx.fn(BOX, 'Box.origin', setter=True)
+    try:
+        ev.call_fn(setter, [obj, o1.copy()], {}, Path({}))
+    except (Opaque, WouldRaise) as e:
+        raise AnalysisError('Box.origin setter on the model: %s' % e)
+    second = ask(obj, V0, o1)
+    n += 1
+    ctx.ob('INSIDE', loc, 'one object asked, given another origin (origin setter), asked again: the answers follow the new origin', first == want and second == want, 'before %s, after %s' % (first, second), node=fn, key='origin then inside')
+    ctx.floor('INSIDE/scenarios', n, 5)
+
+
 def _qual(fn):
     names = [fn.name]
     p = getattr(fn, '_parent', None)
@@ -649,4 +727,4 @@ def run(ctx):
                        'vectors/origin/points (exact algebra); identities between parameter sets, duality of reciprocal vectors, the inverse pair of conversions and the '
                        'face table of inside() are proved as polynomial/rational identities; cache invalidation, who-may-write, copy/no-mutation and array-like '
                        'conversion discipline are structural rules. Not decided: rounding bounds, conditioning, points within rounding of a face.')
-    ctx.run_rules([cache, arraylike, chain, getters, convert, inside])
+    ctx.run_rules([cache, arraylike, chain, getters, convert, inside, inside_scenarios, set_types])
